@@ -14,6 +14,9 @@ empty string); a vector of items is one token `_item,item,…`.
   `bcastser <root> _s0 _s1 …`       -> serialised bcast through the byte-level model or `error`
   `mpibcastser <root> _s0 …`        -> comm::mpi_bcast
   `xfer _s`                         -> mpi_send of s followed by mpi_recv: what the receiver gets
+  `fallreduce <OP> <f32|f64> b0 b1 …` -> the same wrappers on IEEE values given as hex bit patterns (`nan` canonical)
+  `fprefix <f32|f64> b0 b1 …`       -> prefix_sum on IEEE values
+  `ftree <OP> <f32|f64> b0 b1 …`    -> comm::all_reduce with the IEEE operator (nesting of the tree, not a fold)
   `issame t0 t1 …`                  -> is_same, one 0/1 per rank
   `typeof`                          -> `cty:DT:kind:bytes …`
   `prims <coll>`                    -> program of the collective, e.g. `barrier allreduce:SUM`
@@ -74,6 +77,23 @@ def showOptStrs : Option (List (Option String)) → String
   | none => "error"
   | some l => " ".intercalate (l.map fun | none => "desfail" | some s => showStr s)
 
+def hexDigit? (c : Char) : Option Nat :=
+  if '0' ≤ c ∧ c ≤ '9' then some (c.toNat - '0'.toNat)
+  else if 'a' ≤ c ∧ c ≤ 'f' then some (c.toNat - 'a'.toNat + 10)
+  else none
+
+def hex? (s : String) : Option Nat :=
+  if s.isEmpty then none else s.toList.foldlM (fun acc c => (hexDigit? c).map (acc * 16 + ·)) 0
+
+def hexOf (width n : Nat) : String :=
+  let ds := (Nat.toDigits 16 n)
+  String.ofList (List.replicate (width - ds.length) '0' ++ ds)
+
+def f64s? (ws : List String) : Option (List Float) := ws.mapM fun w => (hex? w).map fun n => Float.ofBits n.toUInt64
+def f32s? (ws : List String) : Option (List Float32) := ws.mapM fun w => (hex? w).map fun n => Float32.ofBits n.toUInt32
+def showF64 (x : Float) : String := if x.isNaN then "nan" else hexOf 16 x.toBits.toNat
+def showF32 (x : Float32) : String := if x.isNaN then "nan" else hexOf 8 x.toBits.toNat
+
 def handle (line : String) : String :=
   match words line with
   | ["subtree", n, r] =>
@@ -126,6 +146,30 @@ def handle (line : String) : String :=
     match str? v with
     | some s => (match xfer charCodec s with | some r => showStr r | none => "desfail")
     | none => "bad-op"
+  | "fallreduce" :: o :: "f64" :: vs =>
+    match op? o, f64s? vs with
+    | some o, some xs => " ".intercalate ((allReduceOp (opF64 o) xs).map showF64)
+    | _, _ => "bad-op"
+  | "fallreduce" :: o :: "f32" :: vs =>
+    match op? o, f32s? vs with
+    | some o, some xs => " ".intercalate ((allReduceOp (opF32 o) xs).map showF32)
+    | _, _ => "bad-op"
+  | "fprefix" :: "f64" :: vs =>
+    match f64s? vs with
+    | some xs => " ".intercalate ((prefixSum (Float.ofBits 0) (opF64 .SUM) xs).map showF64)
+    | none => "bad-op"
+  | "fprefix" :: "f32" :: vs =>
+    match f32s? vs with
+    | some xs => " ".intercalate ((prefixSum (Float32.ofBits 0) (opF32 .SUM) xs).map showF32)
+    | none => "bad-op"
+  | "ftree" :: o :: "f64" :: vs =>
+    match op? o, f64s? vs with
+    | some o, some (x0 :: rest) => " ".intercalate ((treeReduceL (opF64 o) x0 rest).map showF64)
+    | _, _ => "bad-op"
+  | "ftree" :: o :: "f32" :: vs =>
+    match op? o, f32s? vs with
+    | some o, some (x0 :: rest) => " ".intercalate ((treeReduceL (opF32 o) x0 rest).map showF32)
+    | _, _ => "bad-op"
   | "issame" :: vs => " ".intercalate ((isSame (· == ·) vs).map fun b => if b then "1" else "0")
   | ["typeof"] =>
     " ".intercalate (CTy.all.map fun t =>
